@@ -651,7 +651,17 @@ def explore_load(prop, tier, seed, oracle, tags, n_quick, emit=(), with_truth=Fa
     return ex.res
 
 def c01(tier, seed):
-    return explore_load('C01', tier, seed, orc.c01, ['load', 'genes', 'members'], 900, species_level=True)
+    res = explore_load('C01', tier, seed, orc.c01, ['load', 'genes', 'members'], 900, species_level=True)
+    if os.environ.get('VERIF_SHARD', '0/1').startswith('0/'):
+        # a family nested through 100+ levels of a ladder-like tree: its top-level HOG still holds every referenced gene, each
+        # once (r14-C01b: a depth limit in the visitor that is not derived from the tree)
+        n_ = 100 + 7 * (seed % 5)
+        bad_ = deep_family_navigation(n_)
+        res.count('families_nested_through_more_than_100_levels')
+        if bad_:
+            res.oracle_failures.append(dict(case='C01-deep', clauses=bad_[:4], call='a family with one member in each of %d species of a caterpillar tree, written as %d nested groups' % (n_, n_ - 1),
+                                            input=dict(newick='caterpillar of %d species S0..S%d' % (n_, n_ - 1), naming='own', orthoxml='(generated: harness/props.py deep_family_navigation(%d))' % n_), extra=None, _D=None))
+    return res
 
 def c02(tier, seed):
     def pyobs(h, o):
@@ -942,6 +952,12 @@ def explore_profiles(prop, tier, seed, n_quick):
             except Exception as e:      # noqa
                 ex.fail(cid + '-flt', D, ['profiles of a filtered analysis raised %s: %s' % (type(e).__name__, e)])
         try:
+            if ex.rng.random() < 0.3:
+                # gene counts WITHOUT singletons were asked for before any profile (r14-C10a: one memo slot for both values of the
+                # `singleton` argument)
+                for g_ in h.get_list_extant_genomes():
+                    g_.get_number_genes(singleton=False)
+                ex.res.count('gene_counts_without_singletons_asked_first')
             if ex.rng.random() < 0.2:
                 # iHam pages of the families were built before any profile (r13-C10b / C04b: the page builder prunes species
                 # without genes of the family -- or without <species> element -- from what it takes for a copy of the clade)
@@ -1080,7 +1096,7 @@ def c10(tier, seed): return explore_profiles('C10', tier, seed, 400)
 # ------------------------------------------------------------------------------------ C11
 
 def canon_int(x):
-    return x.isdigit() and str(int(x)) == x
+    return x.isascii() and x.isdigit() and str(int(x)) == x
 
 def selected_families(D, hog_ids, int_ids, ext_ids):
     decl = core.declared_map(D)
